@@ -18,11 +18,13 @@ func init() { register("c03-lookup", "C03", c03Lookup) }
 var (
 	c03HostPats = []string{"a.x.com", "b.x.com", "a.b.x.com", "x.com", "www.y.org", "y.org",
 		"*.x.com", "*.b.x.com", "*.*.x.com", "*x.com", "a.*.com", "*.com", "*", "*.y.org", "a*.x.com",
-		"a.x.com:8080", "*.x.com:8080", "x.com:8080", ""}
+		"a.x.com:8080", "*.x.com:8080", "x.com:8080", "",
+		// written with the scheme's default port; wildcards by '?', class and alternatives; a pattern that is not well formed
+		"a.x.com:80", "x.com:443", "b.x.com:80", "*.x.com:80", "?.x.com", "[ab].x.com", "{a,b}.x.com", "a.x.co?", "{x,ax}.com", "a.[w-y].com", "x.com{", "a.x.com{", "*.x.com{"}
 	c03ReqHosts  = []string{"a.x.com", "b.x.com", "a.b.x.com", "c.a.b.x.com", "x.com", "ax.com", "www.y.org", "y.org", "z.y.org", "q.net", "a.q.com", ""}
 	c03Ports     = []string{"", "", ":80", ":443", ":8080", ":9"}
 	c03Paths     = []string{"/", "/a", "/a/", "/a/b", "/a/b/c", "/ab", "/A/b", "/b", "/B", "/FOO/bar", "/foo"}
-	c03GlobPaths = []string{"/*", "/a*", "/a/*", "/a/b*", "/a/b/*", "/ab*", "/A/b*", "/b*", "/a/b/c"}
+	c03GlobPaths = []string{"/*", "/a*", "/a/*", "/a/b*", "/a/b/*", "/ab*", "/A/b*", "/b*", "/a/b/c", "/a/{", "/a{", "/{"}
 	c03ReqPaths  = []string{"/", "/a", "/a/", "/a/b", "/a/b/c", "/a/b/c/d", "/ab", "/abc", "/A/b", "/A/B", "/b", "/B/x", "/c", "/foo/bar", "/FOO/bar/x", "/Foo", ""}
 )
 
@@ -141,7 +143,7 @@ func c03Lookup(c *ctx) {
 		}
 		// LookupHost: soundness and completeness on exact hosts
 		for _, rt := range cs.Routes {
-			if rt.Host == "" || strings.Contains(rt.Host, "*") {
+			if rt.Host == "" || strings.ContainsAny(rt.Host, "*?[{") || strings.HasSuffix(rt.Host, ":80") || strings.HasSuffix(rt.Host, ":443") {
 				continue
 			}
 			name := rt.Host
